@@ -232,11 +232,14 @@ def run_scenario(sc: dict) -> list[dict]:
             # wrap-up: the environment lets every replay finish: resumes held flows, refuses pending connects,
             # closes connections that still wait for an answer
             rec({"k": "wrapup", "diverged": diverged})
-            for _round in range(3 * len(flows) + 6):
+            idle_rounds = 0
+            for _round in range(2000):  # every round makes progress or counts towards giving up (a wedged replay)
                 progressed = False
                 while held:
-                    held.pop(0).resume()
-                    progressed = True
+                    f = held.pop(0)
+                    if f.intercepted:
+                        progressed = True
+                    f.resume()
                 for a in net.attempts:
                     if a.pending:
                         a.refuse()
@@ -247,7 +250,10 @@ def run_scenario(sc: dict) -> list[dict]:
                         s.eof()
                         progressed = True
                 await vloop.settle()
-                if not progressed and cp.inflight is None and cp.queue.empty():
+                if cp.inflight is None and cp.queue.empty() and not progressed:
+                    break
+                idle_rounds = 0 if progressed else idle_rounds + 1
+                if idle_rounds >= 3:
                     break
             rec({"k": "end", "inflight": fid.get(id(cp.inflight), 0), "left": qids(), "open_socks": len(net.open_socks()),
                  "outcome": [("response" if getattr(f, "response", None) else "") + ("error" if f.error else "") or "none"
@@ -348,7 +354,7 @@ class Check(core.PropertyCheck):
         mid = self.mon_constants("thorough") | {"MaxFlows": 3, "Cfgs": tuple(c | {"maxops": c["maxops"] + 1} for c in cfgs("quick"))}
         main = ctx.model_check(self.MODEL, mid, dump=True)
         big = ctx.model_check(self.MODEL, self.model_constants("thorough"), dump=False, tag="_big")
-        self._extra_behs, _r = ctx.simulate(self.MODEL, self.model_constants("thorough"), num=3000, depth=30, tag="big")
+        self._extra_behs, _r = ctx.simulate(self.MODEL, self.model_constants("thorough"), num=1500, depth=30, tag="big")
         ctx.notes["big_model_simulated_behaviours"] = len(self._extra_behs)
         return [main, big]
 
@@ -369,7 +375,7 @@ class Check(core.PropertyCheck):
     def scenarios(self, ctx, models):
         g = models[0].graph
         behs = g.edge_cover(ctx.rng, max_len=40, tail=8)
-        behs += g.random_walks(ctx.rng, 60 if ctx.quick else 3000, 40)
+        behs += g.random_walks(ctx.rng, 60 if ctx.quick else 1500, 40)
         for b in self._extra_behs:
             sc = self._scenario(b)
             sc.source = "simulate"
@@ -381,7 +387,7 @@ class Check(core.PropertyCheck):
                 # the same environment under asyncio.eager_task_factory (what mitmproxy's master installs): monitor only
                 yield core.Scenario(sc.data | {"eager": True, "lenient": True}, source="model-eager")
         rng = random.Random(ctx.seed + 53)
-        for _ in range(300 if ctx.quick else 6000):
+        for _ in range(300 if ctx.quick else 3000):
             yield core.Scenario(random_scenario(rng), source="random")
 
     def drift_view(self, trace):
